@@ -385,6 +385,46 @@ pub fn get_repeated_file_path_from_diff_line(line: &str) -> Option<String> {
     None
 }
 
+/// The two paths of `diff --git a/x b/y` when they differ (sections without `---`/`+++` lines:
+/// two files of equal content but different mode, compared with `git diff --no-index`). Only
+/// when there is exactly one place where the second path can begin.
+pub fn get_two_file_paths_from_diff_line(line: &str) -> Option<(String, String)> {
+    let paths = line.strip_prefix("diff --git ")?;
+    if paths.contains('"') {
+        // A quoted path ends at its closing quote (a quote inside it is escaped).
+        let first_len = if paths.starts_with('"') {
+            let mut escaped = false;
+            1 + paths[1..].find(|c| {
+                let closing = c == '"' && !escaped;
+                escaped = c == '\\' && !escaped;
+                closing
+            })? + 1
+        } else {
+            paths.find(" \"")?
+        };
+        let second = paths[first_len..].strip_prefix(' ')?;
+        return Some((
+            _parse_file_path(&paths[..first_len], true),
+            _parse_file_path(second, true),
+        ));
+    }
+    if !DIFF_PREFIXES.iter().any(|s| paths.starts_with(s)) {
+        return None;
+    }
+    let mut candidates = paths.match_indices(' ').filter(|(i, _)| {
+        DIFF_PREFIXES
+            .iter()
+            .any(|s| paths[i + 1..].starts_with(s) && paths.len() > i + 1 + s.len())
+    });
+    match (candidates.next(), candidates.next()) {
+        (Some((i, _)), None) => Some((
+            _parse_file_path(&paths[..i], true),
+            _parse_file_path(&paths[i + 1..], true),
+        )),
+        _ => None,
+    }
+}
+
 fn remove_surrounding_quotes(path: &str) -> &str {
     if path.len() >= 2 && path.starts_with('"') && path.ends_with('"') {
         // Indexing into the UTF-8 string is safe because of the previous test
